@@ -110,11 +110,14 @@ def run(R, env):
             mt_pred = lambda t: loaded_field(prog, t, "state", ["owner_transfer_min_time"], crate)
             rem, n = world_edges(hctx, mt_pred, True)
             R.worlds += 2
-            R.floor("C12.R3", crate + ": tests of owner_transfer_min_time", n, 1)
-            w = hctx.with_removed(rem).settle()
+            # (the world is also an assumption, so that a helper asking `state.locked_until(now)` is evaluated in it)
+            w = hctx.assume_ok(mt_pred, True).with_removed(rem).settle()
             DG = deadline_guard("timelock", is_min_time_secs(prog, crate), is_block_seconds, {">"})
             found = []
             ok, off = guarded(w, DG, prog, env.depth, found)
+            from engine.analysis import success_exits as _se12
+            # not vacuous: with a min time stored (and nothing said about the clock) acceptance can still succeed
+            R.ob("C12.R3", crate + ":timelock:world-not-vacuous", bool(_se12(w)), "no success exit in the world where a min time is stored: the time-lock rule would pass vacuously", fn=hk)
             R.ob("C12.R3", crate + ":timelock", ok, "with a min time stored, acceptance can succeed without `reject iff min_time.seconds() > now` (comparisons of these operands seen with truth sets %s); exit %s" % (DG.seen, off), loc=off["loc"] if off else (found[0]["loc"] if found else None), fn=hk, found=found)
             # nomination consumed
             saves = state_save_ops(prog, hctx, env, crate)
